@@ -8,4 +8,6 @@ def run(P, R, L):
     R.clause("GRD-7", "a filter miss returns Err(KeyNotFound) and never a verdict; `may match` always reads the block; the probe uses "
              "the handle's offset and the lookup key's user key")
     K.verd1(P, R, L, what=("table",))
+    R.clause("PAIR-7", "two-level iteration skips empty blocks in the direction of travel (TwoLevelIterator / FilesEntryIterator)")
+    K.pair7_direction(P, R, L, types={"tables::table::TwoLevelIterator", "versioning::file_iterators::FilesEntryIterator"})
     R.not_decided += ["prefix compression, separators, seek positions, iteration order (computed bytes)"]
